@@ -348,6 +348,10 @@ func c16Cases(thorough bool) (out []c16Case) {
 	recs = append(recs, "AGGREGATE|h|Zürich∥1∥k≔Zürich∥s≔Málaga∥count(x)≔1∥y≔3∥", "AGGREGATE|h|日本∥2∥k≔日本∥s≔\xff\xfe∥count(x)≔2∥y≔1∥",
 		"AGGREGATE|h|a\tb∥1∥k≔a\tb∥s≔€€€€€€€€€€€€∥count(x)≔1∥sum(y)≔5∥y≔2∥", "AGGREGATE|h|é∥1∥count(x)≔1∥sum(y)≔2∥")
 	recs = append(recs, "REMOTE|h|100|1|f|EOF\n", "REMOTE|h|100|1|f|Foo\n", "SERVER|h|FAIL", "REMOTE|h|100|1|f|E", "REMOTE|h|100|1|f|\n")
+	// messages whose first field only STARTS with a record word, for the same server as genuine records (the painters
+	// are chosen by prefix): anything remembered from one message must not show up in another
+	recs = append(recs, "REMOTEX|h|b|c|d|e|f|g", "REMOTE_ADDR|h|10.0.0.7|GET|/index.html|200", "REMOTELY|h|100|1|f|text", "REMOTE|H|100|1|f|text", "REMOTE|h|100|2|g|other text",
+		"SERVERS|h|ERROR|boom", "CLIENTS|h|FATAL|x", "SERVER|h|WARN|boom", "CLIENT|h|WARN|x", "AGGREGATES|h|k∥1∥count(x)≔1∥sum(y)≔2∥")
 	var small []string
 	c10Seq(toks, 1, "", func(m string) { small = append(small, m) })
 	second := append(append([]string{}, recs...), small...)
